@@ -852,6 +852,18 @@ func (x *c03) dischargeIndex(f *ssa.Function, in ssa.Instruction, base, idx ssa.
 				return "G8: " + why, ""
 			}
 		}
+		// Gmake: a buffer made here with length c + (a length), c > k
+		if mk, ok := base.(*ssa.MakeSlice); ok {
+			if bo, ok := mk.Len.(*ssa.BinOp); ok && bo.Op == token.ADD {
+				for _, pr := range [][2]ssa.Value{{bo.X, bo.Y}, {bo.Y, bo.X}} {
+					if cst, ok := flow.ConstInt(pr[0]); ok && cst > k {
+						if _, isLen := builtinOf(pr[1], "len"); isLen {
+							return fmt.Sprintf("Gmake: index %d into a buffer made with length %d + len(…)", k, cst), ""
+						}
+					}
+				}
+			}
+		}
 		return "", fmt.Sprintf("constant index %d without a dominating length guard", k)
 	}
 	// b[i] with i < len(b) guard (loop)
